@@ -50,7 +50,11 @@ Definition conv (c : col) (v : val) : option val :=
               end
   | VDec u s0 => match cty c with
                  | TDec p s => let u' := rescale u s0 s in if fits_dec u' p then Some (VDec u' s) else None
-                 | TInt lo hi => let z := rescale u s0 0 in if (lo <=? z)%Z && (z <=? hi)%Z then Some (VInt z) else None
+                 | TInt lo hi =>
+                   (* quirk mirrored: BIGINT UNSIGNED rejects a negative decimal before rounding (-0.019 fails), the
+                      narrower unsigned types round first (-0.019 becomes 0) *)
+                   if (lo =? 0)%Z && (hi =? 18446744073709551615)%Z && (u <? 0)%Z then None
+                   else let z := rescale u s0 0 in if (lo <=? z)%Z && (z <=? hi)%Z then Some (VInt z) else None
                  | _ => None
                  end
   | VTime t => match cty c with
